@@ -31,13 +31,7 @@ func main() {
 
 	if *replay != "" {
 		for _, l := range hx.ReadLines(*replay) {
-			items := hx.MustParse(l)
-			in := items[0]
-			// drop the codec tables from the stored input: they are recomputed
-			for n := len(in.List); n > 0 && (in.List[n-1].Head() == "tab" || in.List[n-1].Head() == "htab"); n = len(in.List) {
-				in.List = in.List[:n-1]
-			}
-			sink.Put(execInput(in))
+			sink.Put(safe(func() string { return execInput(hx.MustParse(l)[0]) }))
 		}
 		return
 	}
@@ -49,7 +43,7 @@ func main() {
 		go func() {
 			defer wg.Done()
 			for j := range jobs {
-				sink.Put(j())
+				sink.Put(safe(j))
 			}
 		}()
 	}
@@ -148,6 +142,56 @@ func main() {
 			}
 		}
 		vec(nil)
+	}
+
+	// ---- every kind of call in every delivery form of bodies and with every endpoint spelling
+	for _, card := range []bool{false, true} {
+		card := card
+		data := genPayload(card, rng)
+		o1 := &Obj{Path: "/u/cal/c/a b.ics", ETag: "e\"1", Sec: 1700000000, Nsec: 7, Len: 0, Data: data}
+		o2 := &Obj{Path: "/u/cal/c/é.ics", ETag: "", Sec: zeroSec, Data: genPayload(card, rng)}
+		coll := &Coll{Path: "/u/cal/c/", Name: "N <&>", Desc: " d\n", Max: 9, Comps: []string{"VTODO", "VEVENT"}}
+		for mode := 0; mode < nModes; mode++ {
+			for ep := 0; ep < len(endpoints); ep++ {
+				if mode == 0 && ep == 0 {
+					continue // the plain cases
+				}
+				if mode != 0 && ep != mode%len(endpoints) && hx.Tier() != "thorough" {
+					continue
+				}
+				mode, ep := mode, ep
+				g := *o1
+				fitLen(card, &g)
+				via := func(f stepFn) { jobs <- func() string { return runVia(mode, ep, f) } }
+				via(func(e env) (string, string) { return e.query(card, "/u/", []*Obj{o1, o2}) })
+				via(func(e env) (string, string) {
+					return e.multiget(card, "/u/", []string{o2.Path, "/u/cal/c/missing", o1.Path},
+						[]hrefOut{{o1.Path, &Outcome{Kind: "found", Obj: o1}}, {o2.Path, &Outcome{Kind: "found", Obj: o2}}, {"/u/cal/c/missing", failKinds[0]}})
+				})
+				via(func(e env) (string, string) { return e.find(card, "/u/", "/u/cal/", []*Coll{coll}) })
+				via(func(e env) (string, string) {
+					return e.propfind(card, "/u/", append(allObjNames(card), allCollNames(card)...), coll, []*Obj{o1, o2})
+				})
+				via(func(e env) (string, string) { return e.get(card, g.Path, &Outcome{Kind: "found", Obj: &g}) })
+				via(func(e env) (string, string) { return e.get(card, "/u/cal/c/gone.ics", failKinds[0]) })
+				via(func(e env) (string, string) {
+					return e.put(card, "/u/cal/c/new.ics", data, &Outcome{Kind: "found", Obj: &Obj{Path: o1.Path, ETag: "t", Sec: 1700000000}})
+				})
+				via(func(e env) (string, string) {
+					return e.putseq(card, "/u/cal/c/Meeting.ics", false, []putStep{
+						{data, &Outcome{Kind: "found", Obj: &Obj{Path: "/u/cal/c/meeting.ics", ETag: "v1", Sec: 1700000001}}},
+						{data, &Outcome{Kind: "found", Obj: &Obj{Path: "/u/cal/c/meeting.ics", ETag: "v2", Sec: 1700000002}}}})
+				})
+				for ci, call := range []string{"objects", "find", "sync"} {
+					r := rng.Fork(7000000 + mode*100 + ep*10 + ci)
+					call := call
+					cd := card || call == "sync"
+					reqpath, d1, d2 := genDocPair(r, cd, call)
+					via(func(e env) (string, string) { return e.vdoc(cd, call, reqpath, d1, d2) })
+				}
+			}
+		}
+		sizeCases(jobs, card, rng)
 	}
 
 	// ---- generated part
@@ -271,6 +315,100 @@ func main() {
 			pre := r.Bool()
 			jobs <- func() string { return runPutSeq(card, spath, pre, steps) }
 		}
+
+		// ---- the calls of this round once more, in another delivery form / endpoint spelling
+		if i%4 == 1 {
+			mode, ep := 1+r.Intn(4), r.Intn(len(endpoints))
+			if i%20 == 1 {
+				mode = 5
+			}
+			gout2 := gout
+			if gout.Kind == "found" {
+				g := *gout.Obj
+				fitLen(card, &g)
+				gout2 = &Outcome{Kind: "found", Obj: &g}
+			}
+			via := func(f stepFn) { jobs <- func() string { return runVia(mode, ep, f) } }
+			via(func(e env) (string, string) { return e.query(card, principal, objs) })
+			via(func(e env) (string, string) { return e.multiget(card, principal, hrefs, outs) })
+			via(func(e env) (string, string) { return e.find(card, principal, home, colls) })
+			via(func(e env) (string, string) { return e.propfind(card, principal, req, pc, objs) })
+			via(func(e env) (string, string) { return e.get(card, gpath, gout2) })
+			via(func(e env) (string, string) { return e.put(card, ppath, pdata, pret) })
+		}
+
+		// ---- a history on ONE backend, ONE handler, ONE client, request values reused
+		if i%3 == 0 {
+			mode, ep := 0, r.Intn(len(endpoints))
+			if r.Chance(1, 3) {
+				mode = 1 + r.Intn(4)
+			}
+			if r.Chance(1, 12) {
+				mode = 5
+			}
+			gout2 := gout
+			if gout.Kind == "found" {
+				g := *gout.Obj
+				fitLen(card, &g)
+				gout2 = &Outcome{Kind: "found", Obj: &g}
+			}
+			other := r.Pick([]string{"/u/", "/usr é/", "/p q/", "/other user/"})
+			short := hrefs[:1+r.Intn(len(hrefs))/2] // a shorter multiget after a longer one
+			cup := append([]Xname{{nsDAV, "current-user-principal"}, {nsDAV, "getetag"}}, req...)
+			pool := []stepFn{
+				func(e env) (string, string) { return e.query(card, principal, objs) },
+				func(e env) (string, string) { return e.multiget(card, principal, hrefs, outs) },
+				func(e env) (string, string) { return e.find(card, principal, home, colls) },
+				func(e env) (string, string) { return e.propfind(card, principal, cup, pc, objs) },
+				func(e env) (string, string) { return e.get(card, gpath, gout2) },
+				func(e env) (string, string) { return e.put(card, ppath, pdata, pret) },
+				// the same calls for another user / with less to answer: stale state of the step
+				// before would show
+				func(e env) (string, string) { return e.query(card, other, nil) },
+				func(e env) (string, string) { return e.multiget(card, other, short, outs) },
+				func(e env) (string, string) { return e.find(card, other, home, nil) },
+				func(e env) (string, string) { return e.propfind(card, other, cup, pc, nil) },
+				func(e env) (string, string) { return e.get(card, ppath, genFail(r.Fork(77), card)) },
+			}
+			var steps []stepFn
+			for n := 2 + r.Intn(4); n > 0; n-- {
+				steps = append(steps, pool[r.Intn(len(pool))])
+			}
+			jobs <- func() string { return runSession(card, false, mode, ep, steps) }
+		}
+
+		// ---- a read-only history, then the same calls overlapping on the same values
+		if i%8 == 2 {
+			mode, ep := r.Intn(5), r.Intn(len(endpoints))
+			if r.Chance(1, 10) {
+				mode = 5
+			}
+			cup := append([]Xname{{nsDAV, "current-user-principal"}}, allObjNames(card)...)
+			var robjs []*Obj // objects every codec can carry, with distinct paths
+			seenP := map[string]bool{}
+			for _, o := range objs {
+				// (GET of an object the iCalendar encoder refuses is not modelled: the streaming
+				// encoder may have sent part of a 200 answer before it fails)
+				_, enc := encodeK(card, o.Data)
+				if enc && len(o.Path) > 1 && o.Path[0] == '/' && o.Path[1] != '/' && !seenP[o.Path] {
+					seenP[o.Path] = true
+					g := *o
+					fitLen(card, &g)
+					robjs = append(robjs, &g)
+				}
+			}
+			steps := []stepFn{
+				func(e env) (string, string) { return e.query(card, "/u/", robjs) },
+				func(e env) (string, string) { return e.find(card, "/u/", "/u/cal/", []*Coll{pc}) },
+				func(e env) (string, string) { return e.propfind(card, "/u/", cup, pc, robjs) },
+			}
+			for _, o := range robjs {
+				o := o
+				steps = append(steps, func(e env) (string, string) { return e.get(card, o.Path, &Outcome{Kind: "found", Obj: o}) })
+			}
+			steps = append(steps, func(e env) (string, string) { return e.get(card, "/u/cal/c/nothing here", &Outcome{Kind: "http", Code: 404}) })
+			jobs <- func() string { return runSession(card, true, mode, ep, steps) }
+		}
 	}
 
 	// ---- documents from the independent writer: two layouts of one content
@@ -280,7 +418,17 @@ func main() {
 		call := calls[r.Intn(3)]
 		card := r.Bool() || call == "sync"
 		reqpath, d1, d2 := genDocPair(r, card, call)
-		jobs <- func() string { return runVdoc(card, call, reqpath, d1, d2) }
+		if i%5 == 3 {
+			mode, ep := 1+r.Intn(5), r.Intn(len(endpoints))
+			if mode == 5 && i%25 != 3 {
+				mode = 2
+			}
+			jobs <- func() string {
+				return runVia(mode, ep, func(e env) (string, string) { return e.vdoc(card, call, reqpath, d1, d2) })
+			}
+		} else {
+			jobs <- func() string { return runVdoc(card, call, reqpath, d1, d2) }
+		}
 		// malformed stream: one to three deviations from a conformant document
 		t := docTree(d2)
 		for n := 1 + r.Intn(3); n > 0; n-- {
@@ -291,6 +439,27 @@ func main() {
 	close(jobs)
 	wg.Wait()
 	fmt.Fprintf(os.Stderr, "c10: %d cases\n", sink.N)
+}
+
+// safe: whatever the harness calls in /repo - also to compute inputs or expected values,
+// outside the guarded client calls - a panic is an observation, never the death of the
+// harness (generator audit, item 9).
+func safe(j job) (line string) {
+	defer func() {
+		if r := recover(); r != nil {
+			line = hx.L("crash", "cal", hx.S(fmt.Sprint(r))) + " " + hx.L(hx.L("panic", hx.S(fmt.Sprint(r))))
+		}
+	}()
+	return j()
+}
+
+// fitLen: through a real server the Content-Length a backend states for an object must be
+// the length of what the server writes (net/http enforces it, and adds the header itself
+// when the handler does not); the harness makes the double state the true length there.
+func fitLen(card bool, o *Obj) {
+	if text, ok := encodeK(card, o.Data); ok {
+		o.Len = int64(len(text))
+	}
 }
 
 func allObjNames(card bool) []Xname {
@@ -304,4 +473,80 @@ func allCollNames(card bool) []Xname {
 	}
 	return []Xname{{nsDAV, "displayname"}, {nsCal, "calendar-description"}, {nsCal, "max-resource-size"},
 		{nsCal, "supported-calendar-data"}, {nsCal, "supported-calendar-component-set"}}
+}
+
+// sizeCases: values around the buffer sizes of the code and its libraries (generator
+// audit, item 5): bufio / encoding/xml 4096, net/http's 2048-byte sniffing and 4 KiB
+// chunks, io.Copy's 32 KiB, 64 KiB; in property values, header values, payload values,
+// names, and numbers of siblings.
+func sizeCases(jobs chan<- job, card bool, rng *hx.Rand) {
+	sizes := []int{512, 4096, 32769}
+	sibs := []int{120}
+	if hx.Tier() == "thorough" {
+		sizes = []int{511, 512, 513, 1023, 1024, 1025, 2047, 2048, 2049, 4095, 4096, 4097, 8192, 32767, 32768, 32769, 65535, 65536, 65537}
+		sibs = []int{120, 600, 2000}
+	}
+	fill := func(n int, unit string) string { // exactly n bytes, whole units then x (valid UTF-8)
+		s := ""
+		for len(s)+len(unit) <= n {
+			s += unit
+		}
+		for len(s) < n {
+			s += "x"
+		}
+		return s
+	}
+	for si, n := range sizes {
+		n := n
+		r := rng.Fork(9000000 + si)
+		mode := si % nModes
+		// a collection whose name and description have that size
+		c := &Coll{Path: "/u/cal/big/", Name: fill(n, "n<&>é"), Desc: fill(n, "d \n"), Max: int64(n)}
+		jobs <- func() string {
+			return runVia(mode, 0, func(e env) (string, string) { return e.find(card, "/u/", "/u/cal/", []*Coll{c}) })
+		}
+		// an object with a tag of that size, a name of (at most 200 bytes of) that size and a
+		// payload holding a value of that size
+		var data string
+		if card {
+			v := cardFromK(genCard(r))
+			v.SetValue("NOTE", fill(n, "note, with; chars "))
+			data = cardK(v)
+		} else {
+			v := calFromK(genCal(r))
+			v.Children[len(v.Children)-1].Props.SetText("DESCRIPTION", fill(n, "long text, with; chars "))
+			data = calK(v)
+		}
+		name := fill(n, "x")
+		if len(name) > 200 {
+			name = name[:200]
+		}
+		o := &Obj{Path: "/u/cal/big/" + name + ".ics", ETag: fill(n, "t\"g"), Sec: 1700000000, Data: data}
+		fitLen(card, o)
+		jobs <- func() string {
+			return runVia(mode, 0, func(e env) (string, string) { return e.query(card, "/u/", []*Obj{o}) })
+		}
+		jobs <- func() string {
+			return runVia(mode, 0, func(e env) (string, string) { return e.get(card, o.Path, &Outcome{Kind: "found", Obj: o}) })
+		}
+		jobs <- func() string {
+			return runVia(mode, 0, func(e env) (string, string) {
+				return e.put(card, o.Path, data, &Outcome{Kind: "found", Obj: &Obj{Path: o.Path, ETag: o.ETag, Sec: o.Sec}})
+			})
+		}
+	}
+	for _, n := range sibs {
+		var objs []*Obj
+		var hrefs []string
+		var outs []hrefOut
+		data := genPayload(card, rng)
+		for i := 0; i < n; i++ {
+			o := &Obj{Path: fmt.Sprintf("/u/cal/many/%d.ics", i), ETag: fmt.Sprint(i), Sec: 1700000000 + int64(i), Data: data}
+			objs = append(objs, o)
+			hrefs = append(hrefs, o.Path)
+			outs = append(outs, hrefOut{o.Path, &Outcome{Kind: "found", Obj: o}})
+		}
+		jobs <- func() string { return runQuery(card, "/u/", objs) }
+		jobs <- func() string { return runMultiget(card, "/u/", hrefs, outs) }
+	}
 }
